@@ -3,7 +3,7 @@
 cd "$(dirname "$0")/.."
 IDS="${*:-C14 C13 C04 C01 C18 C19 C16 C10 C20 C09 C08 C06 C05 C02 C11 C12 C07}"
 for id in $IDS; do
-  s=$(date +%s); ./vcheck $id --tier quick > /tmp/wt/quick_$id.log 2>&1; rc=$?; e=$(date +%s)
+  s=$(date +%s); VERIF_SEED=${VERIF_SEED:-1} ./vcheck $id --tier quick > /tmp/wt/quick_$id.log 2>&1; rc=$?; e=$(date +%s)
   echo "QUICK $id exit=$rc wall=$((e-s))s $(tail -1 /tmp/wt/quick_$id.log | cut -c1-250)"
 done
 echo QUICKDONE
